@@ -1,4 +1,5 @@
 import HawkModel.Deparse
+import HawkModel.DeparseStmt
 import HawkModel.Drv.Util
 /-! driver for the deparse area: one expression source per line in;
     out: `ok <deparsed text>\t<stable|UNSTABLE ...>` or `err <class>` -/
@@ -10,7 +11,28 @@ def showErr : Err → String
   | .rparen => "rparen" | .rbrack => "rbrack" | .colon => "colon" | .comma => "comma" | .fuel => "fuel"
   | .lex => "lex" | .unsupported => "unsupported"
 
+/-- statement mode: the line is `S ` + the text of a block `{ ... }` with newline written as U+0001 and tab as U+0002;
+    answer: `ok ` + the text the model prints for the tree the model's parser reads (same encoding) -/
+def stepStmt (line : String) : String :=
+  let cs := (line.toList.drop 2).map (fun c => if c == Char.ofNat 1 then '\n' else if c == Char.ofNat 2 then '\t' else c)
+  match lex (String.ofList cs) with
+  | .error e => s!"err lex-{showErr e}"
+  | .ok ts =>
+    match parseBlockText ts with
+    | .error e => s!"err {showErr e}"
+    | .ok st =>
+      let items := printS 0 0 st
+      let txt := renderS items
+      -- second generation inside the model: the printed tokens are read back and printed again
+      let again :=
+        match parseBlockText (toksS items) with
+        | .error e => s!"UNSTABLE reparse-error {showErr e}"
+        | .ok st2 => if renderS (printS 0 0 st2) == txt then "stable" else "UNSTABLE d2-differs"
+      let enc := String.ofList (txt.toList.map (fun c => if c == '\n' then Char.ofNat 1 else if c == '\t' then Char.ofNat 2 else c))
+      s!"ok {again}\t{enc}"
+
 def step (_ : Unit) (line : String) : Unit × String :=
+  if line.startsWith "S " then ((), stepStmt line) else
   let src := String.ofList (line.toList.filter (fun c => c != (Char.ofNat 10) && c != (Char.ofNat 13)))
   match lex src with
   | .error e => ((), s!"err {showErr e}")
